@@ -134,12 +134,15 @@ def s_sram(draw):
     dw = draw(st.sampled_from([8, 16, 32, 64]))
     if draw(st.integers(0, 5)):
         g = draw(st.sampled_from([None] + [x for x in (8, 16, 32, 64) if x <= dw]))
-        size = (dw // (g or dw)) << draw(st.integers(0 if (g or dw) < dw else 1, 6))
+        lo = 0 if (g or dw) < dw else 1          # a single-row memory needs granularity < data width
+        size = (dw // (g or dw)) << draw(st.sampled_from([lo, lo, 1, 1, 2, 3, 4, 5, 6]))
+        depth = (size * (g or dw)) // dw
+        init = draw(st.lists(st.integers(0, 255), max_size=min(depth, 6)))
     else:
         g = draw(st.sampled_from([None, 8, 16, 32, 64]))
         size = draw(st.sampled_from([1, 2, 4, 3, 0, 256]))
-    return {"size": size, "dw": dw, "g": g, "writable": draw(st.booleans()),
-            "init": draw(st.lists(st.integers(0, 255), max_size=6))}
+        init = draw(st.lists(st.integers(0, 255), max_size=6))
+    return {"size": size, "dw": dw, "g": g, "writable": draw(st.booleans()), "init": init}
 
 
 @st.composite
@@ -199,13 +202,14 @@ def build(spec):
         ports = flat_signals(comp)
         for r, _, _ in regs:
             ports += flat_signals(r)
-        return Built(comp, ports, len(regs), [("bus", "csr_target")])
+        aw, _ = gens.plan_csr_layout(p)
+        return Built(comp, ports, len(regs), [("bus", "csr_target", {"addr_width": aw, "data_width": p["dw"]})])
     if c == "csr_decoder":
         comp, ifaces, _ = gens.build_csr_decoder(p)
         ports = flat_signals(comp)
         for iface in ifaces:
             ports += flat_signals(iface)
-        return Built(comp, ports, len(ifaces), [("bus", "csr_target")])
+        return Built(comp, ports, len(ifaces), [("bus", "csr_target", comp.verif_ctor)])
     if c == "csr_bridge":
         b = csr.Builder(addr_width=p["aw"], data_width=p["dw"], granularity=p["g"])
         count = [0]
@@ -223,7 +227,7 @@ def build(spec):
                         run(op[2])
         run(p["ops"])
         comp = csr.Bridge(b.as_memory_map())
-        return Built(comp, flat_signals(comp), count[0], [("bus", "csr_target")])
+        return Built(comp, flat_signals(comp), count[0], [("bus", "csr_target", {"addr_width": p["aw"], "data_width": p["dw"]})])
     if c == "register":
         comp = make_register(p)
         ports = flat_signals(comp)
@@ -245,7 +249,7 @@ def build(spec):
             bus_ports = []
         else:
             comp = CSREventMonitor(emap, trigger=p["trigger"], data_width=p["dw"], alignment=p["al"])
-            bus_ports = [("bus", "csr_target")]
+            bus_ports = [("bus", "csr_target", {"data_width": p["dw"]})]
         ports = flat_signals(comp)
         for s in srcs:
             ports += flat_signals(s)
@@ -254,13 +258,16 @@ def build(spec):
         iface = csr.Interface(addr_width=p["csr_aw"], data_width=p["csr_dw"], path=("csr",))
         iface.memory_map = MemoryMap(addr_width=p["csr_aw"], data_width=p["csr_dw"])
         comp = WishboneCSRBridge(iface, data_width=p["wb_dw"], name=("csrs",) if p["named"] else None)
-        return Built(comp, flat_signals(comp) + flat_signals(iface), 2, [("wb_bus", "wb_target")])
+        wbdw = p["wb_dw"] or p["csr_dw"]
+        return Built(comp, flat_signals(comp) + flat_signals(iface), 2,
+                     [("wb_bus", "wb_target", {"addr_width": p["csr_aw"] - ((wbdw // p["csr_dw"]).bit_length() - 1),
+                                               "data_width": wbdw, "granularity": p["csr_dw"], "features": []})])
     if c == "wb_decoder":
         comp, ifaces, _ = gens.build_wb_decoder(p)
         ports = flat_signals(comp)
         for iface in ifaces:
             ports += flat_signals(iface)
-        return Built(comp, ports, len(ifaces), [("bus", "wb_target")])
+        return Built(comp, ports, len(ifaces), [("bus", "wb_target", comp.verif_ctor)])
     if c == "wb_arbiter":
         comp = wishbone.Arbiter(addr_width=p["aw"], data_width=p["dw"], granularity=p["g"],
                                 features=p["feat"])
@@ -270,13 +277,16 @@ def build(spec):
                                        features=s["feat"], path=(f"intr{i}",))
             comp.add(iface)
             ports += flat_signals(iface)
-        return Built(comp, ports, len(p["intrs"]), [("bus", "wb_initiator_out")])
+        return Built(comp, ports, len(p["intrs"]), [("bus", "wb_initiator_out",
+                     {"addr_width": p["aw"], "data_width": p["dw"], "granularity": p["g"], "features": p["feat"]})])
     if c == "sram":
         comp = WishboneSRAM(size=p["size"], data_width=p["dw"], granularity=p["g"],
                             writable=p["writable"], init=p["init"])
-        return Built(comp, flat_signals(comp), 2, [("wb_bus", "wb_target")])
+        g = p["g"] or p["dw"]
+        return Built(comp, flat_signals(comp), 2, [("wb_bus", "wb_target",
+                     {"addr_width": ((p["size"] * g) // p["dw"]).bit_length() - 1, "data_width": p["dw"], "granularity": g, "features": []})])
     if c == "gpio":
         comp = gpio.Peripheral(pin_count=p["pins"], addr_width=p["aw"], data_width=p["dw"],
                                input_stages=p["stages"])
-        return Built(comp, flat_signals(comp), p["pins"], [("bus", "csr_target")])
+        return Built(comp, flat_signals(comp), p["pins"], [("bus", "csr_target", {"addr_width": p["aw"], "data_width": p["dw"]})])
     raise KeyError(c)
